@@ -355,12 +355,12 @@ def run(tier: str, seed: int):
     col = U.Collector('C05 bounded: recording oracle for the tree_map family, traverse/walk, functor laws')
     src = fn_src()
     if tier == 'quick':
-        g, ds, txt = U.universe(tier, seed, U.EXT, quick_nodes=4, quick_limit=1250)
+        g, ds, txt = U.universe(tier, seed, U.EXT, quick_nodes=4, quick_limit=1200)
     else:
         g, ds, txt = U.universe(tier, seed, U.EXT, thorough_nodes=3)
-        ds += U.random_descrs(seed, U.EXT, 4, 20000) + U.random_descrs(seed, U.EXT, 5, 12000) + U.random_descrs(seed, U.EXT, 6, 8000) \
-            + U.random_descrs(seed, U.EXT, 7, 4000)
-        txt += '; 20000/12000/8000/4000 seeded random 4/5/6/7-node trees'
+        ds += U.random_descrs(seed, U.EXT, 4, 8000) + U.random_descrs(seed, U.EXT, 5, 5000) + U.random_descrs(seed, U.EXT, 6, 3000) \
+            + U.random_descrs(seed, U.EXT, 7, 1500)
+        txt += '; 8000/5000/3000/1500 seeded random 4/5/6/7-node trees'
     rng = __import__('random').Random(seed)
     nbad = 0
     for i, d in enumerate(ds):
@@ -375,8 +375,9 @@ def run(tier: str, seed: int):
             tag = f'tree {S.show(d)} [{U.opt_repr(o)}]'
             U.run_checks(col, PROP, [chk_laws], src, tree, lambda tree=tree: U.to_src(tree), o, tag)
             small = S.count_nodes(d) <= 3
-            if tier == 'quick':
-                combos = [[], [1], [2, 1], [1, 2, 0]] if small else [REST_COMBOS[(i + len(o['namespace'])) % len(REST_COMBOS)]]
+            if tier == 'quick':       # full rest combinations without predicate, one combination otherwise
+                combos = [[], [1], [2, 1], [1, 2, 0]] if small and o['is_leaf'] is None else \
+                    [REST_COMBOS[(i + len(o['namespace'])) % len(REST_COMBOS)]]
             else:
                 combos = REST_COMBOS if small else [REST_COMBOS[(i + len(o['namespace'])) % len(REST_COMBOS)], [1, 2]]
             for combo in combos:
@@ -384,7 +385,7 @@ def run(tier: str, seed: int):
                 U.run_checks(col, PROP, [chk_map], src, case, lambda case=case: case_src(case), o, f'{tag} rest variants {combo}')
             edits = list(applicable_edits(tree, o)) if not (o['ins'] and tier == 'quick') else []
             cap = 3 if tier != 'quick' else 2
-            if not small and len(edits) > cap:
+            if (not small or tier == 'quick' and o['is_leaf'] is not None) and len(edits) > cap:
                 edits = rng.sample(edits, cap)
             for n_e, edit in enumerate(edits):
                 case = (tree, edit, (i + n_e) % 4)
